@@ -83,7 +83,9 @@ def check_kripke(inp):
         if f is not None:
             return f
         # non-states
-        for x in [OUT + '!', ('nope',), -99]:
+        # non-states of many Python types (a tuple is what '%' formatting takes for an argument list;
+        # braces and percent signs are what format strings choke on)
+        for x in [OUT + '!', ('nope',), -99, ('no', 'pe'), (), (1, 2, 3), frozenset([OUT]), 3.5, 'a%sb{}', '{0}', '%d']:
             if x in nodes:
                 continue
             for meth in ('labels', 'next'):
